@@ -204,9 +204,14 @@ class Printer:
             return self.members(e[1])
         if k == 'objcomp':
             _, binds, name, plus, body, specs = e
-            parts = ['local ' + self.binds([b]) for b in binds]
+            # object locals may stand before or after the field (same scope either way): a deterministic split by
+            # the number of binds so that both printers of one program agree
+            cut = len(binds) - (len(binds) // 2 if len(binds) >= 2 else (1 if (len(binds) == 1 and len(self.at(body, 0)) % 2 == 0) else 0))
+            parts = ['local ' + self.binds([b]) for b in binds[:cut]]
             parts.append('[' + self.at(name, 0) + ']' + ('+' if plus else '') + ': ' + self.at(body, 0))
+            parts += ['local ' + self.binds([b]) for b in binds[cut:]]
             return '{' + ', '.join(parts) + ' ' + self.specs(specs) + '}'
+
         if k == 'field':
             return self.at(e[1], P_POSTFIX) + '.' + e[2] if is_ident(e[2]) else self.at(e[1], P_POSTFIX) + '[' + jstr(e[2]) + ']'
         if k == 'index':
